@@ -588,338 +588,339 @@ def ctorParams (fields : List Node) : List (String × String) :=
 
 /-! ## the visitor -/
 
+/-- the body of the decorated visit methods (dispatch of `ASTVisitor.visit`), with the
+    recursive call abstracted as `v`; `st` already has the node pushed on `_nodes_stack` -/
+def visitNode (e : Env) (v : St → Node → St × Text) (st : St) (n : Node) : St × Text :=
+  match n with
+  | .block body _ =>
+    let fnv := st.isFuncNonVoidBlock
+    let nfb := st.isNestedFuncBlock
+    let (s1, rs) := visitBlockKids v { st with isFuncNonVoidBlock := false, isNestedFuncBlock := false } body
+    let s2 := { s1 with isFuncNonVoidBlock := fnv, isNestedFuncBlock := nfb }
+    let (ret, sugar, ssemi, x') := blockSugar e s2 body
+    let s3 := { s2 with xCounter := x' }
+    let res := blockText s3 rs ret sugar ssemi
+    if !parentIsFunction s3 then
+      let etype : Option Ty := if body.isEmpty then some tyVoid else typeHintLast e s3.ns s3.smartCasts body
+      let es := boxedOf (typeNameO etype true false)
+      (s3, "((Function0<" ++ es ++ ">) (() -> " ++ res ++ ")).apply()")
+    else (s3, res)
+  | .callArg expr _ =>
+    let old := st.ident
+    let (s1, r) := v { st with ident := 0 } expr
+    ({ s1 with ident := old }, r)
+  | .bottom t =>
+    let cast := match t with
+      | some x => if !(Ty.beq x .nothing) then "(" ++ typeName x false false ++ ") " else ""
+      | none => ""
+    (st, sp st.ident ++ (if parentIsFuncRef st then "(" else "") ++ cast ++ "null" ++
+         (if parentIsFuncRef st then ")" else "") ++ semi st)
+  | .superInst t _ => (st, typeName t false false)
+  | .classDecl name ctype isFinal fields supers funcs tparams =>
+    -- change_namespace
+    let initialNs := st.ns
+    let st := { st with ns := st.ns ++ [name] }
+    let old := st.ident
+    let (s1, fieldRes) := visitL v { st with ident := st.ident + 2 } fields
+    let (s2, _superRes) := visitL v s1 supers
+    let (s3, funcRes) := visitL v s2 funcs
+    let tpr := join ", " (tparams.map typeParamStr)
+    let pre := sp old ++ (if isFinal then "final " else "")
+    let clsPrefix := if ctype == 0 then "class" else if ctype == 1 then "interface" else "abstract class"
+    let res := pre ++ clsPrefix ++ " " ++ name
+    let res := if tpr != "" then res ++ "<" ++ tpr ++ ">" else res
+    -- get_superclasses_interfaces
+    let glob := classesGlob e s3.ns
+    let classify := supers.filterMap fun s => match s with
+      | .superInst t _ =>
+          let isIface := match (dictGet glob (tyName t)).join with
+            | some (.classDecl _ ct _ _ _ _ _) => some (ct == 1)
+            | _ => none
+          some (typeName t false false, isIface)
+      | _ => none
+    let keyErr := classify.any fun p => p.2.isNone
+    let superclasses := (classify.filter fun p => p.2 != some true).map (·.1)
+    let interfaces := (classify.filter fun p => p.2 == some true).map (·.1)
+    let res := if !superclasses.isEmpty then res ++ " extends " ++ join ", " superclasses else res
+    let res := if !interfaces.isEmpty then
+        res ++ (if ctype == 1 then " extends " else " implements ") ++ join ", " interfaces
+      else res
+    -- construct_constructor
+    let ctor : Text :=
+      let params := join "," ((ctorParams fields).map fun p => p.2 ++ " " ++ p.1)
+      let fs := fields.map fun fd => "this." ++ declName fd ++ " = " ++ declName fd ++ ";"
+      let cfields := (if !fs.isEmpty then "\n" ++ sp (s3.ident + 2) else "") ++ join ("\n" ++ sp (s3.ident + 2)) fs
+      let superCall :=
+        match supers.head? with
+        | some (.superInst t args) =>
+          if !(Ty.isBuiltin t) then
+            let r := match args with
+              | some (a :: as) =>
+                  -- a fresh JavaTranslator: context, _cast_number = True, _namespace
+                  let tr : St := { St.init with castNumber := true, ns := s3.ns }
+                  collapseWs (join ", " (visitL v tr (a :: as)).2)
+              | _ => ""
+            "\n" ++ sp (s3.ident + 2) ++ "super(" ++ r ++ ");"
+          else ""
+        | _ => ""
+      sp s3.ident ++ "public " ++ name ++ "(" ++ params ++ ") {" ++ superCall ++ cfields ++ "\n" ++
+        (if !fs.isEmpty then sp s3.ident else "") ++ "}"
+    let body :=
+      if !funcRes.isEmpty || !fieldRes.isEmpty || !superclasses.isEmpty then
+        let b := " {\n"
+        let b := if !fieldRes.isEmpty then b ++ sp s3.ident ++ join ("\n" ++ sp s3.ident) fieldRes ++ "\n\n" else b
+        let b := if !superclasses.isEmpty || !fieldRes.isEmpty then
+            b ++ ctor ++ (if !funcRes.isEmpty then "\n\n" else "")
+          else b
+        let b := if !funcRes.isEmpty then b ++ join "\n\n" funcRes else b
+        b ++ "\n" ++ sp (s3.ident - 4) ++ "}"
+      else " {}"
+    let res := if keyErr then err "KeyError" else res ++ body
+    ({ s3 with ident := old, ns := initialNs }, res)
+  | .varDecl name expr isFinal _ inferred =>
+    let prev := st.castNumber
+    let (s1, r) := v { st with castNumber := true } expr
+    let vt := typeNameO inferred false false
+    let mp := if s1.ns != ["global"] then mainPrefix e s1 "vars" name else ""
+    let res := sp s1.ident ++ (if isFinal then "final " else "") ++ vt ++ " " ++ mp ++ name ++ " = " ++ lstrip r ++ ";"
+    ({ s1 with castNumber := prev }, res)
+  | .fieldDecl name t isFinal _ _ =>
+    (st, "public " ++ (if isFinal then "final " else "") ++ typeName t false false ++ " " ++ name ++ ";")
+  | .paramDecl name t vararg _ =>
+    let pt := match vararg, t with
+      | true, .param _ _ (a :: _) _ => a
+      | _, _ => t
+    (st, typeName pt false false ++ (if vararg then "..." else "") ++ " " ++ name)
+  | .funcDecl name params _ inferred body isFinal _ tparams _ =>
+    let initialNs := st.ns
+    let st := { st with ns := st.ns ++ [name] }
+    let prevIIF := st.insideIsFunction
+    let st := if st.insideIs then { st with insideIsFunction := true } else st
+    let atGlobal := nsParentName st.ns == "global"
+    let old := if atGlobal then st.ident + 2 else st.ident
+    let st := if atGlobal then { st with ident := st.ident + 2 } else st
+    let st := { st with ident := st.ident + 2 }
+    let prevCast := st.castNumber
+    let fnv := st.isFuncNonVoidBlock
+    let st := { st with isFuncNonVoidBlock := notVoid inferred }
+    let nfb := st.isNestedFuncBlock
+    let nested := isNestedFuncDecl e st.ns
+    let st := { st with isNestedFuncBlock := nested }
+    let isExpr := match body with | some b => !isBlock b | none => true
+    let st := if isExpr then { st with castNumber := true } else st
+    let (s1, paramRes) := visitL v st params
+    let tpr := join ", " (tparams.map typeParamStr)
+    let (s2, bodyRes) := match body with
+      | some b => v s1 b
+      | none => (s1, "")
+    let bodyT :=
+      if bodyRes != "" then
+        if isExpr then
+          let br := if notVoid inferred then addStringAt bodyRes "return " (leadingSpaces bodyRes) else bodyRes
+          "{\n" ++ br ++ ";\n" ++ identOld s2 old ++ "}"
+        else bodyRes
+      else ""
+    let (s3, res) :=
+      if isNestedFuncDecl e s2.ns then
+        let types := (paramRes.map fun x => (rsplit1 x).replace "..." "[]") ++ [typeNameO inferred true false]
+        let types := types.map boxedOf
+        let ps := paramRes.map lastWord
+        let s3 := { s2 with functionInterfaces := setAdd s2.functionInterfaces ps.length }
+        (s3, identOld s3 old ++ "Function" ++ toString ps.length ++ "<" ++ join ", " types ++ "> " ++ name ++
+          " = (" ++ join ", " ps ++ ") -> " ++ bodyT ++ ";")
+      else
+        (s2, identOld s2 old ++ "public " ++ (if isFinal then "final " else "") ++
+          (if bodyT == "" then "abstract " else "") ++ (if tpr != "" then "<" ++ tpr ++ "> " else "") ++
+          typeNameO inferred false false ++ " " ++ name ++ "(" ++ join ", " paramRes ++ ") " ++ bodyT ++
+          (if bodyT == "" then ";" else ""))
+    let old := if atGlobal then old - 2 else old
+    let s4 := { s3 with ident := old, isFuncNonVoidBlock := fnv, isNestedFuncBlock := nfb, castNumber := prevCast }
+    let s5 := if s4.insideIs then { s4 with insideIsFunction := prevIIF } else s4
+    ({ s5 with ns := initialNs }, res)
+  | .lambda name params ret body _ =>
+    let initialNs := st.ns
+    let st := { st with ns := st.ns ++ [name] }
+    let prevIIF := st.insideIsFunction
+    let st := if st.insideIs then { st with insideIsFunction := true } else st
+    let atGlobal := nsParentName st.ns == "global"
+    let old := if atGlobal then st.ident + 2 else st.ident
+    let st := if atGlobal then { st with ident := st.ident + 2 } else st
+    let st := { st with ident := st.ident + 2 }
+    let prevCast := st.castNumber
+    let fnv := st.isFuncNonVoidBlock
+    let st := { st with isFuncNonVoidBlock := notVoid ret }
+    let isExpr := !isBlock body
+    let st := if isExpr then { st with castNumber := true } else st
+    let (s1, paramRes) := visitL v st params
+    let (s2, bodyRes) := v s1 body
+    let bodyT :=
+      if bodyRes != "" then
+        if isExpr then
+          let br := if notVoid ret then addStringAt bodyRes "return " (leadingSpaces bodyRes) else bodyRes
+          "{" ++ br ++ ";}" ++ semi s2
+        else bodyRes
+      else ""
+    let res := "(" ++ join ", " paramRes ++ ") -> " ++ bodyT
+    let old := if atGlobal then old - 2 else old
+    let s3 := { s2 with ident := old, isFuncNonVoidBlock := fnv, castNumber := prevCast }
+    let s4 := if s3.insideIs then { s3 with insideIsFunction := prevIIF } else s3
+    ({ s4 with ns := initialNs }, res)
+  | .intC lit t =>
+    if !st.castNumber then (st, sp st.ident ++ lit ++ semi st)
+    else (st, sp st.ident ++ intCast t lit ++ semi st)
+  | .realC lit t =>
+    if !st.castNumber then (st, sp st.ident ++ lit ++ semi st)
+    else (st, sp st.ident ++ realCast t lit ++ semi st)
+  | .charC lit => (st, sp st.ident ++ " '" ++ lit ++ "'" ++ semi st)
+  | .stringC lit => (st, sp st.ident ++ "\"" ++ lit ++ "\"" ++ semi st)
+  | .boolC lit => (st, sp st.ident ++ lit ++ semi st)
+  | .arrayE t len exprs =>
+    let a0 : Option Ty := match t with | .param _ _ (a :: _) _ => some a | _ => none
+    if len == 0 then
+      let nw := match a0 with
+        | some a => if a.isParam then "(" ++ typeName a false false ++ "[]) new Object" else "new " ++ typeName a false false
+        | none => err "AttributeError"
+      (st, sp st.ident ++ nw ++ "[0]" ++ semi st)
+    else
+      let old := st.ident
+      let prevCast := st.castNumber
+      let (s1, rs) := visitL v { st with castNumber := true, ident := 0 } exprs
+      let nw := match t, a0 with
+        | .param .., some a => if !isPrimitive a then "(" ++ typeName t false false ++ ") new Object[]" else "new " ++ typeName t false false
+        | .param .., none => err "IndexError"
+        | _, _ => "new " ++ typeName t false false
+      let s2 := { s1 with castNumber := prevCast, ident := old }
+      (s2, sp s2.ident ++ nw ++ "{" ++ join ", " rs ++ "}" ++ semi s2)
+  | .variable name =>
+    (st, sp st.ident ++ mainPrefix e st "vars" name ++ name ++ rep "_is" (isCount st name) ++ semi st)
+  | .binop _ l r op =>
+    let old := st.ident
+    let (s1, ra) := v { st with ident := 0 } l
+    let (s2, rb) := v s1 r
+    let res := identOld s2 old ++ "(" ++ ra ++ " " ++ op ++ " " ++ rb ++ ")" ++ semi s2
+    ({ s2 with ident := old }, res)
+  | .cond c tb fb _ =>
+    let prevInsideIs := st.insideIs
+    let old := st.ident
+    let (s1, rc) := v { st with insideIs := true, ident := st.ident + 2 } c
+    let prevNs := s1.ns
+    let (s4, rt, rf) :=
+      match c with
+      | .isE lexpr rexpr isNot =>
+        let key := (varName? lexpr, rexpr)
+        if !isNot then
+          let s := { s1 with ns := prevNs ++ ["true_block"], smartCasts := s1.smartCasts ++ [key] }
+          let (s2, rt) := v s tb
+          let s2 := { s2 with smartCasts := s2.smartCasts.dropLast, visitIsStack := s2.visitIsStack.dropLast,
+                              ns := prevNs ++ ["false_block"] }
+          let (s3, rf) := v s2 fb
+          (s3, rt, rf)
+        else
+          let s := { s1 with ns := prevNs ++ ["true_block"], visitIsStack := s1.visitIsStack.dropLast }
+          let (s2, rt) := v s tb
+          let s2 := { s2 with ns := prevNs ++ ["false_block"], smartCasts := s2.smartCasts ++ [key] }
+          let (s3, rf) := v s2 fb
+          ({ s3 with smartCasts := s3.smartCasts.dropLast }, rt, rf)
+      | _ =>
+        let (s2, rt) := v s1 tb
+        let (s3, rf) := v s2 fb
+        (s3, rt, rf)
+    let res := identOld s4 old ++ "((" ++ lstrip rc ++ ") ?\n" ++ rt ++ " : \n " ++ rf ++ ")" ++ semi s4
+    ({ s4 with ident := old, insideIs := prevInsideIs, ns := prevNs }, res)
+  | .isE lexpr rexpr isNot =>
+    let old := st.ident
+    let (s1, r) := v { st with ident := 0 } lexpr
+    let s2 := match varName? lexpr with
+      | some nm => { s1 with visitIsStack := s1.visitIsStack ++ [some nm] }
+      | none => s1
+    let newVar := match varName? lexpr with
+      | some nm => " " ++ nm ++ rep "_is" (isCount s2 nm)
+      | none => ""
+    let res := identOld s2 old ++ (if isNot then "!(" else "") ++ r ++ " instanceof " ++ Ty.getName rexpr ++
+      newVar ++ (if isNot then ")" else "")
+    ({ s2 with ident := old }, res)
+  | .newE t args canInfer =>
+    let old := st.ident
+    let prevCast := st.castNumber
+    let (s1, rs) := visitL v { st with ident := 0, castNumber := true } args
+    let s2 := { s1 with ident := old }
+    let cls := if canInfer then tyName t ++ "<>" else typeName t false false
+    let res := sp s2.ident ++ "new " ++ cls ++ "(" ++ join ", " rs ++ ")" ++ semi s2
+    ({ s2 with castNumber := prevCast }, res)
+  | .fieldAccess ex field =>
+    let old := st.ident
+    let (s1, r) := v { st with ident := 0 } ex
+    let s2 := { s1 with ident := old }
+    (s2, sp s2.ident ++ wrapBottom ex r ++ "." ++ field ++ semi s2)
+  | .funcRef func receiver _ =>
+    let old := st.ident
+    let (s1, rs) := visitL v { st with ident := 0 } (optList receiver)
+    let s2 := { s1 with ident := old }
+    let recv := match rs with
+      | r :: _ => r
+      | [] =>
+        let r0 := match parentClass e s2.ns with
+          | some pc =>
+              let decls := (classesGlob e ["global"]).filterMap (·.2)
+              if (callableNames decls (decls.length + 1) pc).contains func then "this" else ""
+          | none => ""
+        match getDecl e s2.ns func with
+        | some (dns, d) => if dns == ["global"] && isFuncDecl d then "Main" else r0
+        | none => r0
+    let recv := if recv != "" then recv ++ "::" else recv
+    (s2, sp s2.ident ++ recv ++ func ++ semi s2)
+  | .call func args receiver _ _ isRefCall =>
+    let old := st.ident
+    let prevCast := st.castNumber
+    let (s1, rr) := visitL v { st with ident := 0, castNumber := true } (optList receiver)
+    let (s2, rs) := visitL v s1 args
+    let s3 := { s2 with ident := old }
+    let fdecl := match getDecl e s3.ns func with
+      | some (dns, d) => if isFuncDecl d then some (dns, d) else none
+      | none => none
+    let nested := match fdecl with
+      | some (dns, _) =>
+          let lastNs := dns.getLast?.getD ""
+          lastNs != "global" && (match lastNs.toList.head? with | some c => c.isLower | none => false)
+      | none => false
+    let fname := mainPrefix e s3 "funcs" func ++ func
+    let args' :=
+      match fdecl with
+      | some (_, d) =>
+        (match (funcParams d).getLast? with
+         | some (.paramDecl _ pt true _) =>
+            if nested then
+              let k := (funcParams d).length - 1
+              let a0prim := match pt with | .param _ _ (a :: _) _ => isPrimitive a | _ => false
+              let nw := if !a0prim then "(" ++ typeName pt false false ++ ") new Object[]" else "new " ++ typeName pt false false
+              rs.take k ++ [nw ++ "{" ++ join ", " (rs.drop k) ++ "}"]
+            else rs
+         | _ => rs)
+      | none => rs
+    let recvExpr := match receiver, rr with
+      | some rcv, r :: _ => if r != "" then (if isBottomC rcv then "(" ++ r ++ ")." else r ++ ".") else ""
+      | _, _ => ""
+    let res := sp s3.ident ++ (if isRefCall then mainPrefix e s3 "vars" func else "") ++ recvExpr ++ fname ++
+      (if nested || isRefCall then ".apply" else "") ++ "(" ++ join ", " args' ++ ")" ++ semi s3
+    ({ s3 with castNumber := prevCast }, res)
+  | .assign name expr receiver =>
+    let old := st.ident
+    let prevCast := st.castNumber
+    let (s1, rr) := visitL v { st with ident := 0, castNumber := true } (optList receiver)
+    let (s2, re) := v s1 expr
+    let s3 := { s2 with ident := old }
+    let nm := mainPrefix e s3 "vars" name ++ name
+    let recvExpr := match receiver, rr with
+      | some rcv, r :: _ => if r != "" then (if isBottomC rcv then "(" ++ r ++ ")." else r ++ ".") else ""
+      | _, _ => ""
+    let res := identOld s3 old ++ recvExpr ++ nm ++ " = " ++ re ++ ";"
+    ({ s3 with ident := old, castNumber := prevCast }, res)
+
+/-- `append_to(visit_*)`: push the node, visit, pop, route the result -/
 def visit (e : Env) : Nat → St → Node → St × Text
   | 0, st, _ => (st, fuelMark)
   | f+1, st0, n =>
-    -- append_to: push
-    let st := { st0 with nodesStack := tagOf n :: st0.nodesStack }
-    let v := visit e f
-    let out : St × Text :=
-      match n with
-      | .block body _ =>
-        let fnv := st.isFuncNonVoidBlock
-        let nfb := st.isNestedFuncBlock
-        let (s1, rs) := visitBlockKids v { st with isFuncNonVoidBlock := false, isNestedFuncBlock := false } body
-        let s2 := { s1 with isFuncNonVoidBlock := fnv, isNestedFuncBlock := nfb }
-        let (ret, sugar, ssemi, x') := blockSugar e s2 body
-        let s3 := { s2 with xCounter := x' }
-        let res := blockText s3 rs ret sugar ssemi
-        if !parentIsFunction s3 then
-          let etype : Option Ty := if body.isEmpty then some tyVoid else typeHintLast e s3.ns s3.smartCasts body
-          let es := boxedOf (typeNameO etype true false)
-          (s3, "((Function0<" ++ es ++ ">) (() -> " ++ res ++ ")).apply()")
-        else (s3, res)
-      | .callArg expr _ =>
-        let old := st.ident
-        let (s1, r) := v { st with ident := 0 } expr
-        ({ s1 with ident := old }, r)
-      | .bottom t =>
-        let cast := match t with
-          | some x => if !(Ty.beq x .nothing) then "(" ++ typeName x false false ++ ") " else ""
-          | none => ""
-        (st, sp st.ident ++ (if parentIsFuncRef st then "(" else "") ++ cast ++ "null" ++
-             (if parentIsFuncRef st then ")" else "") ++ semi st)
-      | .superInst t _ => (st, typeName t false false)
-      | .classDecl name ctype isFinal fields supers funcs tparams =>
-        -- change_namespace
-        let initialNs := st.ns
-        let st := { st with ns := st.ns ++ [name] }
-        let old := st.ident
-        let (s1, fieldRes) := visitL v { st with ident := st.ident + 2 } fields
-        let (s2, _superRes) := visitL v s1 supers
-        let (s3, funcRes) := visitL v s2 funcs
-        let tpr := join ", " (tparams.map typeParamStr)
-        let pre := sp old ++ (if isFinal then "final " else "")
-        let clsPrefix := if ctype == 0 then "class" else if ctype == 1 then "interface" else "abstract class"
-        let res := pre ++ clsPrefix ++ " " ++ name
-        let res := if tpr != "" then res ++ "<" ++ tpr ++ ">" else res
-        -- get_superclasses_interfaces
-        let glob := classesGlob e s3.ns
-        let classify := supers.filterMap fun s => match s with
-          | .superInst t _ =>
-              let isIface := match (dictGet glob (tyName t)).join with
-                | some (.classDecl _ ct _ _ _ _ _) => some (ct == 1)
-                | _ => none
-              some (typeName t false false, isIface)
-          | _ => none
-        let keyErr := classify.any fun p => p.2.isNone
-        let superclasses := (classify.filter fun p => p.2 != some true).map (·.1)
-        let interfaces := (classify.filter fun p => p.2 == some true).map (·.1)
-        let res := if !superclasses.isEmpty then res ++ " extends " ++ join ", " superclasses else res
-        let res := if !interfaces.isEmpty then
-            res ++ (if ctype == 1 then " extends " else " implements ") ++ join ", " interfaces
-          else res
-        -- construct_constructor
-        let ctor : Text :=
-          let params := join "," ((ctorParams fields).map fun p => p.2 ++ " " ++ p.1)
-          let fs := fields.map fun fd => "this." ++ declName fd ++ " = " ++ declName fd ++ ";"
-          let cfields := (if !fs.isEmpty then "\n" ++ sp (s3.ident + 2) else "") ++ join ("\n" ++ sp (s3.ident + 2)) fs
-          let superCall :=
-            match supers.head? with
-            | some (.superInst t args) =>
-              if !(Ty.isBuiltin t) then
-                let r := match args with
-                  | some (a :: as) =>
-                      -- a fresh JavaTranslator: context, _cast_number = True, _namespace
-                      let tr : St := { St.init with castNumber := true, ns := s3.ns }
-                      collapseWs (join ", " (visitL v tr (a :: as)).2)
-                  | _ => ""
-                "\n" ++ sp (s3.ident + 2) ++ "super(" ++ r ++ ");"
-              else ""
-            | _ => ""
-          sp s3.ident ++ "public " ++ name ++ "(" ++ params ++ ") {" ++ superCall ++ cfields ++ "\n" ++
-            (if !fs.isEmpty then sp s3.ident else "") ++ "}"
-        let body :=
-          if !funcRes.isEmpty || !fieldRes.isEmpty || !superclasses.isEmpty then
-            let b := " {\n"
-            let b := if !fieldRes.isEmpty then b ++ sp s3.ident ++ join ("\n" ++ sp s3.ident) fieldRes ++ "\n\n" else b
-            let b := if !superclasses.isEmpty || !fieldRes.isEmpty then
-                b ++ ctor ++ (if !funcRes.isEmpty then "\n\n" else "")
-              else b
-            let b := if !funcRes.isEmpty then b ++ join "\n\n" funcRes else b
-            b ++ "\n" ++ sp (s3.ident - 4) ++ "}"
-          else " {}"
-        let res := if keyErr then err "KeyError" else res ++ body
-        ({ s3 with ident := old, ns := initialNs }, res)
-      | .varDecl name expr isFinal _ inferred =>
-        let prev := st.castNumber
-        let (s1, r) := v { st with castNumber := true } expr
-        let vt := typeNameO inferred false false
-        let mp := if s1.ns != ["global"] then mainPrefix e s1 "vars" name else ""
-        let res := sp s1.ident ++ (if isFinal then "final " else "") ++ vt ++ " " ++ mp ++ name ++ " = " ++ lstrip r ++ ";"
-        ({ s1 with castNumber := prev }, res)
-      | .fieldDecl name t isFinal _ _ =>
-        (st, "public " ++ (if isFinal then "final " else "") ++ typeName t false false ++ " " ++ name ++ ";")
-      | .paramDecl name t vararg _ =>
-        let pt := match vararg, t with
-          | true, .param _ _ (a :: _) _ => a
-          | _, _ => t
-        (st, typeName pt false false ++ (if vararg then "..." else "") ++ " " ++ name)
-      | .funcDecl name params _ inferred body isFinal _ tparams _ =>
-        let initialNs := st.ns
-        let st := { st with ns := st.ns ++ [name] }
-        let prevIIF := st.insideIsFunction
-        let st := if st.insideIs then { st with insideIsFunction := true } else st
-        let atGlobal := nsParentName st.ns == "global"
-        let old := if atGlobal then st.ident + 2 else st.ident
-        let st := if atGlobal then { st with ident := st.ident + 2 } else st
-        let st := { st with ident := st.ident + 2 }
-        let prevCast := st.castNumber
-        let fnv := st.isFuncNonVoidBlock
-        let st := { st with isFuncNonVoidBlock := notVoid inferred }
-        let nfb := st.isNestedFuncBlock
-        let nested := isNestedFuncDecl e st.ns
-        let st := { st with isNestedFuncBlock := nested }
-        let isExpr := match body with | some b => !isBlock b | none => true
-        let st := if isExpr then { st with castNumber := true } else st
-        let (s1, paramRes) := visitL v st params
-        let tpr := join ", " (tparams.map typeParamStr)
-        let (s2, bodyRes) := match body with
-          | some b => v s1 b
-          | none => (s1, "")
-        let bodyT :=
-          if bodyRes != "" then
-            if isExpr then
-              let br := if notVoid inferred then addStringAt bodyRes "return " (leadingSpaces bodyRes) else bodyRes
-              "{\n" ++ br ++ ";\n" ++ identOld s2 old ++ "}"
-            else bodyRes
-          else ""
-        let (s3, res) :=
-          if isNestedFuncDecl e s2.ns then
-            let types := (paramRes.map fun x => (rsplit1 x).replace "..." "[]") ++ [typeNameO inferred true false]
-            let types := types.map boxedOf
-            let ps := paramRes.map lastWord
-            let s3 := { s2 with functionInterfaces := setAdd s2.functionInterfaces ps.length }
-            (s3, identOld s3 old ++ "Function" ++ toString ps.length ++ "<" ++ join ", " types ++ "> " ++ name ++
-              " = (" ++ join ", " ps ++ ") -> " ++ bodyT ++ ";")
-          else
-            (s2, identOld s2 old ++ "public " ++ (if isFinal then "final " else "") ++
-              (if bodyT == "" then "abstract " else "") ++ (if tpr != "" then "<" ++ tpr ++ "> " else "") ++
-              typeNameO inferred false false ++ " " ++ name ++ "(" ++ join ", " paramRes ++ ") " ++ bodyT ++
-              (if bodyT == "" then ";" else ""))
-        let old := if atGlobal then old - 2 else old
-        let s4 := { s3 with ident := old, isFuncNonVoidBlock := fnv, isNestedFuncBlock := nfb, castNumber := prevCast }
-        let s5 := if s4.insideIs then { s4 with insideIsFunction := prevIIF } else s4
-        ({ s5 with ns := initialNs }, res)
-      | .lambda name params ret body _ =>
-        let initialNs := st.ns
-        let st := { st with ns := st.ns ++ [name] }
-        let prevIIF := st.insideIsFunction
-        let st := if st.insideIs then { st with insideIsFunction := true } else st
-        let atGlobal := nsParentName st.ns == "global"
-        let old := if atGlobal then st.ident + 2 else st.ident
-        let st := if atGlobal then { st with ident := st.ident + 2 } else st
-        let st := { st with ident := st.ident + 2 }
-        let prevCast := st.castNumber
-        let fnv := st.isFuncNonVoidBlock
-        let st := { st with isFuncNonVoidBlock := notVoid ret }
-        let isExpr := !isBlock body
-        let st := if isExpr then { st with castNumber := true } else st
-        let (s1, paramRes) := visitL v st params
-        let (s2, bodyRes) := v s1 body
-        let bodyT :=
-          if bodyRes != "" then
-            if isExpr then
-              let br := if notVoid ret then addStringAt bodyRes "return " (leadingSpaces bodyRes) else bodyRes
-              "{" ++ br ++ ";}" ++ semi s2
-            else bodyRes
-          else ""
-        let res := "(" ++ join ", " paramRes ++ ") -> " ++ bodyT
-        let old := if atGlobal then old - 2 else old
-        let s3 := { s2 with ident := old, isFuncNonVoidBlock := fnv, castNumber := prevCast }
-        let s4 := if s3.insideIs then { s3 with insideIsFunction := prevIIF } else s3
-        ({ s4 with ns := initialNs }, res)
-      | .intC lit t =>
-        if !st.castNumber then (st, sp st.ident ++ lit ++ semi st)
-        else (st, sp st.ident ++ intCast t lit ++ semi st)
-      | .realC lit t =>
-        if !st.castNumber then (st, sp st.ident ++ lit ++ semi st)
-        else (st, sp st.ident ++ realCast t lit ++ semi st)
-      | .charC lit => (st, sp st.ident ++ " '" ++ lit ++ "'" ++ semi st)
-      | .stringC lit => (st, sp st.ident ++ "\"" ++ lit ++ "\"" ++ semi st)
-      | .boolC lit => (st, sp st.ident ++ lit ++ semi st)
-      | .arrayE t len exprs =>
-        let a0 : Option Ty := match t with | .param _ _ (a :: _) _ => some a | _ => none
-        if len == 0 then
-          let nw := match a0 with
-            | some a => if a.isParam then "(" ++ typeName a false false ++ "[]) new Object" else "new " ++ typeName a false false
-            | none => err "AttributeError"
-          (st, sp st.ident ++ nw ++ "[0]" ++ semi st)
-        else
-          let old := st.ident
-          let prevCast := st.castNumber
-          let (s1, rs) := visitL v { st with castNumber := true, ident := 0 } exprs
-          let nw := match t, a0 with
-            | .param .., some a => if !isPrimitive a then "(" ++ typeName t false false ++ ") new Object[]" else "new " ++ typeName t false false
-            | .param .., none => err "IndexError"
-            | _, _ => "new " ++ typeName t false false
-          let s2 := { s1 with castNumber := prevCast, ident := old }
-          (s2, sp s2.ident ++ nw ++ "{" ++ join ", " rs ++ "}" ++ semi s2)
-      | .variable name =>
-        (st, sp st.ident ++ mainPrefix e st "vars" name ++ name ++ rep "_is" (isCount st name) ++ semi st)
-      | .binop _ l r op =>
-        let old := st.ident
-        let (s1, ra) := v { st with ident := 0 } l
-        let (s2, rb) := v s1 r
-        let res := identOld s2 old ++ "(" ++ ra ++ " " ++ op ++ " " ++ rb ++ ")" ++ semi s2
-        ({ s2 with ident := old }, res)
-      | .cond c tb fb _ =>
-        let prevInsideIs := st.insideIs
-        let old := st.ident
-        let (s1, rc) := v { st with insideIs := true, ident := st.ident + 2 } c
-        let prevNs := s1.ns
-        let (s4, rt, rf) :=
-          match c with
-          | .isE lexpr rexpr isNot =>
-            let key := (varName? lexpr, rexpr)
-            if !isNot then
-              let s := { s1 with ns := prevNs ++ ["true_block"], smartCasts := s1.smartCasts ++ [key] }
-              let (s2, rt) := v s tb
-              let s2 := { s2 with smartCasts := s2.smartCasts.dropLast, visitIsStack := s2.visitIsStack.dropLast,
-                                  ns := prevNs ++ ["false_block"] }
-              let (s3, rf) := v s2 fb
-              (s3, rt, rf)
-            else
-              let s := { s1 with ns := prevNs ++ ["true_block"], visitIsStack := s1.visitIsStack.dropLast }
-              let (s2, rt) := v s tb
-              let s2 := { s2 with ns := prevNs ++ ["false_block"], smartCasts := s2.smartCasts ++ [key] }
-              let (s3, rf) := v s2 fb
-              ({ s3 with smartCasts := s3.smartCasts.dropLast }, rt, rf)
-          | _ =>
-            let (s2, rt) := v s1 tb
-            let (s3, rf) := v s2 fb
-            (s3, rt, rf)
-        let res := identOld s4 old ++ "((" ++ lstrip rc ++ ") ?\n" ++ rt ++ " : \n " ++ rf ++ ")" ++ semi s4
-        ({ s4 with ident := old, insideIs := prevInsideIs, ns := prevNs }, res)
-      | .isE lexpr rexpr isNot =>
-        let old := st.ident
-        let (s1, r) := v { st with ident := 0 } lexpr
-        let s2 := match varName? lexpr with
-          | some nm => { s1 with visitIsStack := s1.visitIsStack ++ [some nm] }
-          | none => s1
-        let newVar := match varName? lexpr with
-          | some nm => " " ++ nm ++ rep "_is" (isCount s2 nm)
-          | none => ""
-        let res := identOld s2 old ++ (if isNot then "!(" else "") ++ r ++ " instanceof " ++ Ty.getName rexpr ++
-          newVar ++ (if isNot then ")" else "")
-        ({ s2 with ident := old }, res)
-      | .newE t args canInfer =>
-        let old := st.ident
-        let prevCast := st.castNumber
-        let (s1, rs) := visitL v { st with ident := 0, castNumber := true } args
-        let s2 := { s1 with ident := old }
-        let cls := if canInfer then tyName t ++ "<>" else typeName t false false
-        let res := sp s2.ident ++ "new " ++ cls ++ "(" ++ join ", " rs ++ ")" ++ semi s2
-        ({ s2 with castNumber := prevCast }, res)
-      | .fieldAccess ex field =>
-        let old := st.ident
-        let (s1, r) := v { st with ident := 0 } ex
-        let s2 := { s1 with ident := old }
-        (s2, sp s2.ident ++ wrapBottom ex r ++ "." ++ field ++ semi s2)
-      | .funcRef func receiver _ =>
-        let old := st.ident
-        let (s1, rs) := visitL v { st with ident := 0 } (optList receiver)
-        let s2 := { s1 with ident := old }
-        let recv := match rs with
-          | r :: _ => r
-          | [] =>
-            let r0 := match parentClass e s2.ns with
-              | some pc =>
-                  let decls := (classesGlob e ["global"]).filterMap (·.2)
-                  if (callableNames decls (decls.length + 1) pc).contains func then "this" else ""
-              | none => ""
-            match getDecl e s2.ns func with
-            | some (dns, d) => if dns == ["global"] && isFuncDecl d then "Main" else r0
-            | none => r0
-        let recv := if recv != "" then recv ++ "::" else recv
-        (s2, sp s2.ident ++ recv ++ func ++ semi s2)
-      | .call func args receiver _ _ isRefCall =>
-        let old := st.ident
-        let prevCast := st.castNumber
-        let (s1, rr) := visitL v { st with ident := 0, castNumber := true } (optList receiver)
-        let (s2, rs) := visitL v s1 args
-        let s3 := { s2 with ident := old }
-        let fdecl := match getDecl e s3.ns func with
-          | some (dns, d) => if isFuncDecl d then some (dns, d) else none
-          | none => none
-        let nested := match fdecl with
-          | some (dns, _) =>
-              let lastNs := dns.getLast?.getD ""
-              lastNs != "global" && (match lastNs.toList.head? with | some c => c.isLower | none => false)
-          | none => false
-        let fname := mainPrefix e s3 "funcs" func ++ func
-        let args' :=
-          match fdecl with
-          | some (_, d) =>
-            (match (funcParams d).getLast? with
-             | some (.paramDecl _ pt true _) =>
-                if nested then
-                  let k := (funcParams d).length - 1
-                  let a0prim := match pt with | .param _ _ (a :: _) _ => isPrimitive a | _ => false
-                  let nw := if !a0prim then "(" ++ typeName pt false false ++ ") new Object[]" else "new " ++ typeName pt false false
-                  rs.take k ++ [nw ++ "{" ++ join ", " (rs.drop k) ++ "}"]
-                else rs
-             | _ => rs)
-          | none => rs
-        let recvExpr := match receiver, rr with
-          | some rcv, r :: _ => if r != "" then (if isBottomC rcv then "(" ++ r ++ ")." else r ++ ".") else ""
-          | _, _ => ""
-        let res := sp s3.ident ++ (if isRefCall then mainPrefix e s3 "vars" func else "") ++ recvExpr ++ fname ++
-          (if nested || isRefCall then ".apply" else "") ++ "(" ++ join ", " args' ++ ")" ++ semi s3
-        ({ s3 with castNumber := prevCast }, res)
-      | .assign name expr receiver =>
-        let old := st.ident
-        let prevCast := st.castNumber
-        let (s1, rr) := visitL v { st with ident := 0, castNumber := true } (optList receiver)
-        let (s2, re) := v s1 expr
-        let s3 := { s2 with ident := old }
-        let nm := mainPrefix e s3 "vars" name ++ name
-        let recvExpr := match receiver, rr with
-          | some rcv, r :: _ => if r != "" then (if isBottomC rcv then "(" ++ r ++ ")." else r ++ ".") else ""
-          | _, _ => ""
-        let res := identOld s3 old ++ recvExpr ++ nm ++ " = " ++ re ++ ";"
-        ({ s3 with ident := old, castNumber := prevCast }, res)
-    -- append_to: pop and route
+    let out := visitNode e (visit e f) { st0 with nodesStack := tagOf n :: st0.nodesStack } n
     let s' := { out.1 with nodesStack := out.1.nodesStack.drop 1 }
     (route s' n out.2, out.2)
 
